@@ -23,7 +23,8 @@ type Pij struct {
 }
 
 func NewPij(m Model, l float64) (pij *Pij, err error) {
-	pij = &Pij{DBL_MIN,
+	// no valid branch length (they are >= 0): forces the first SetLength to compute the matrix
+	pij = &Pij{-1,
 		m,
 		mat.NewDense(m.NState(), m.NState(), nil),
 		make([]float64, m.NState()),
